@@ -27,7 +27,12 @@ type c18Req struct {
 func c18Gen(r *rand.Rand) c18Req {
 	mh, _ := multihash.Sum(rbytes(r, 1+r.Intn(40)), []uint64{multihash.SHA2_256, multihash.SHA2_512, multihash.IDENTITY}[r.Intn(3)], -1)
 	q := c18Req{mh: mh, ctx: rbytes(r, pickLen(r, 64, 0, 1, 64)), md: rbytes(r, pickLen(r, 200, 0, 1, 200))}
-	for k := 1 + r.Intn(3); k > 0; k-- {
+	naddr := 1 + r.Intn(3)
+	if r.Intn(6) == 0 {
+		// the largest requests the schema admits: full-length context ID and metadata, a long address list
+		q.ctx, q.md, naddr = rbytes(r, 64), rbytes(r, 1024-r.Intn(80)), 1+r.Intn(12)
+	}
+	for k := naddr; k > 0; k-- {
 		q.addrs = append(q.addrs, fmt.Sprintf("/ip4/%d.%d.%d.%d/tcp/%d", 1+r.Intn(200), r.Intn(256), r.Intn(256), r.Intn(256), 1+r.Intn(65535)))
 	}
 	return q
